@@ -3,7 +3,7 @@ Require Import Floats.SpecFloat.
 Require Import ZArith Reals List Bool Lia.
 From Flocq Require Import Core BinarySingleNaN.
 From Dasp Require Import Base.Res Base.Float Ring.Fixed Dsp.Rms Dsp.Sqrt Dsp.RmsInst Dsp.RmsErr
-  Dsp.RmsProofs Dsp.RmsIeee Dsp.SqrtProofs Dsp.RmsRun.
+  Dsp.RmsProofs Dsp.RmsIeee Dsp.SqrtProofs Dsp.RmsRun Dsp.RmsDrift.
 Import ListNotations.
 
 (* a history longer than the window with a reset inside meets the hypotheses of c11_value *)
@@ -59,3 +59,54 @@ Example verdict_rejects :
   e_verdict (u_of 24) (eta_of 24 128) 2 (e_init 2)
     [EPush (B2D ex_loud) (B2D (F32.mul ex_loud ex_loud)); EPush (B2D ex_quiet) (B2D (F32.of_Z 1000001))] = false.
 Proof. vm_compute. split; reflexivity. Qed.
+
+(* ---- non-vacuity of c11_drift_bound / c11_output_bound: a concrete f32 history (window 2, start
+   index 1, loud, loud, quiet, current, quiet -- the loud squares are evicted --, reset, 1.0, quiet,
+   quiet) meets every hypothesis; the bound E it yields is finite and small (about 1.07 after the
+   loud/quiet part where the exact window sum is 2e-6 and the stored float sum is 0 -- the bound is
+   absolute, as the running sum's error is; about 5.4e-7 at the end, E restarted at the reset) ---- *)
+Definition drift_ops : list (op NumF32std) :=
+  [@ONext NumF32std [ex_loud]; @ONext NumF32std [ex_loud]; @ONextSq NumF32std [ex_quiet]; OCurrent;
+   @ONext NumF32std [ex_quiet]; OReset;
+   @ONext NumF32std [F32.one]; @ONext NumF32std [ex_quiet]; @ONext NumF32std [ex_quiet]].
+
+Example drift_hyps :
+  (1 <= 2)%nat /\ (Z.of_nat 2 <= 2 ^ 24)%Z /\ (1 < 2)%nat /\ Forall (opK_ok NumF32std 1) drift_ops /\
+  sums_ok NumF32std F32.is_finite (new_stateK NumF32std 2 1 1) drift_ops = true.
+Proof. split; [lia|]. split; [lia|]. split; [lia|]. split; [repeat constructor|vm_compute; reflexivity]. Qed.
+
+Example drift_values :
+  (let e := e_after 24 128 2 (chan_evs NumF32std 0 (firstn 5 drift_ops)) in
+   esum e = Float radix2 147573966608450 (-66) /\ dleb (eerr e) (Float radix2 11 (-3)) = true /\
+   dleb (Float radix2 1 0) (eerr e) = true) /\
+  (let e := e_after 24 128 2 (chan_evs NumF32std 0 drift_ops) in
+   esum e = Float radix2 147573966608450 (-66) /\ dleb (eerr e) (Float radix2 1 (-20)) = true) /\
+  match run NumF32std (new_stateK NumF32std 2 1 1) (firstn 5 drift_ops) with
+  | Ok (st, _) => map B2Dy (square_sum NumF32std st) = [d0]
+  | _ => False
+  end.
+Proof. vm_compute. repeat split; reflexivity. Qed.
+
+(* two channels, f64, N = 3 > number of pushes before the reset (zero padding), then eviction *)
+Definition drift_ops64 : list (op NumF64std) :=
+  [@ONext NumF64std [F64.of_Z 3; F64.of_Z (-4)]; @ONext NumF64std [F64.one; F64.of_Z 1000000]; OReset;
+   @ONextSq NumF64std [F64.of_Z 5; F64.one]; @ONext NumF64std [F64.one; F64.one];
+   @ONext NumF64std [F64.div F64.one (F64.of_Z 3); F64.one]; @ONext NumF64std [F64.one; F64.of_Z 7]].
+
+Example drift_hyps64 :
+  (1 <= 3)%nat /\ (Z.of_nat 3 <= 2 ^ 24)%Z /\ (2 < 3)%nat /\ Forall (opK_ok NumF64std 2) drift_ops64 /\
+  sums_ok NumF64std F64.is_finite (new_stateK NumF64std 3 2 2) drift_ops64 = true.
+Proof. split; [lia|]. split; [lia|]. split; [lia|]. split; [repeat constructor|vm_compute; reflexivity]. Qed.
+
+(* the zero-window state of the theorems is the state of the examples above and the state the
+   correspondence builds for an all-zero `init` (RmsRun.mk_state); the dyadic reading of a float in
+   the theorems is the one of the verdict *)
+Example new_state_is_ex_state : new_stateK NumF32std 2 1 1 = ex_state.
+Proof. reflexivity. Qed.
+
+Example new_state_is_mk_state :
+  mk_state NumF32std F32.of_bits 2 1 [[0; 0]; [0; 0]; [0; 0]]%Z = Ok (new_stateK NumF32std 3 2 1).
+Proof. reflexivity. Qed.
+
+Example dyadic_reading_same : forall prec emax, @B2D prec emax = @B2Dy prec emax.
+Proof. reflexivity. Qed.
